@@ -554,8 +554,11 @@ def run_case(ctx):
     if cls == "term_imag":
         width = rng.randint(1, 4)
         ops = rand_ops(rng, width)
-        re = rng.choice([0.0, 1.0, -1.0, rng.uniform(-2, 2), rng.uniform(0.1, 1)])
-        im = rng.choice([1e-12, -1e-12, 1e-3, -1e-3, 0.5, -0.5, 1.0, -1.0, rng.uniform(0.01, 2), -rng.uniform(0.01, 2)])
+        re = rng.choice([0.0, 1.0, -1.0, rng.uniform(-2, 2), rng.uniform(0.1, 1), 2.0, -40.0, 150.0, 1e4])
+        # imaginary parts from clearly negligible (1e-12) over "small next to the real part" (a relative tolerance would
+        # let 150+1e-3j or 2+1e-5j pass; the library's limit is the absolute 1e-9) to dominant
+        im = rng.choice([1e-12, -1e-12, 1e-3, -1e-3, 0.5, -0.5, 1.0, -1.0, rng.uniform(0.01, 2), -rng.uniform(0.01, 2),
+                         1e-5, -1e-5, 1e-6, -3e-7, 1e-7, -2e-8])
         if abs(im) <= 1e-10 and re == 0.0:
             re = 0.7
         c = complex(re, im)
